@@ -46,6 +46,8 @@ OBLIGATION_MSGS = (
     "index out of bounds",
     "call to unreached",
     "constructed value may fail to meet its declared type invariant",
+    "unable to prove post-condition of closure",
+    "unable to prove",
 )
 
 def classify(msg):
@@ -161,6 +163,23 @@ def run_unit(spec_name, seed=None, rlimit=None, extra_args=(), keep_name=None, t
             f.tags = f.line_tags
         elif not f.tags:
             f.tags = f.lemma_tags or f.hint_tags
+        # the postcondition of a closure is part of the contract of the function that contains it (rule R5):
+        # attribute its failure to that function's clauses
+        if not f.tags and "post-condition of closure" in msg.lower():
+            for sp in spans:
+                if not sp["line"]: continue
+                fn = None
+                for k in range(sp["line"] - 1, -1, -1):
+                    o = out.map[k]
+                    if o[0] == "clause" and not str(o[3]).startswith("loop"):
+                        fn = o[2]; break
+                if fn:
+                    tg = []
+                    for o in out.map:
+                        if o[0] == "clause" and o[2] == fn: tg += [t for t in o[4] if t]
+                    f.tags = sorted(set(tg))
+                    f.clause_ids.append("closure@%s" % fn)
+                    break
         res["failures"].append(f)
     if res["status"] == "ok":
         kinds = {f.kind for f in res["failures"]}
